@@ -373,6 +373,9 @@ def _safeFormat(fmtString: str, fmtDict: Dict[str, Any]) -> str:
     # can only cry about that individual object instead of the
     # entire event dict.
     try:
+        if isinstance(fmtString, bytes):
+            # The result is text, like for a bytes log_format in the new API.
+            fmtString = fmtString.decode("utf-8")
         text = fmtString % fmtDict
     except KeyboardInterrupt:
         raise
